@@ -39,6 +39,14 @@ pub fn spec_parse_options_valid(exponent: u8, decimal_point: u8, nan: Option<&[u
     true
 }
 
+/// documented constraints of the write-float options (special strings: 1..=50 ASCII letters starting with N/n resp. I/i)
+pub fn spec_write_options_valid(exponent: u8, decimal_point: u8, nan: Option<&[u8]>, inf: Option<&[u8]>) -> bool {
+    if !valid_ascii(exponent) || !valid_ascii(decimal_point) { return false; }
+    if let Some(n) = nan { if n.is_empty() || n.len() > 50 || !(n[0] == b'N' || n[0] == b'n') || !letters(n) { return false; } }
+    if let Some(i) = inf { if i.is_empty() || i.len() > 50 || !(i[0] == b'I' || i[0] == b'i') || !letters(i) { return false; } }
+    true
+}
+
 /// a 'static byte string with symbolic content and length <= 3 (None / empty / 1..3 bytes)
 fn sym_str() -> Option<&'static [u8]> {
     let kind: u8 = any();
@@ -46,12 +54,43 @@ fn sym_str() -> Option<&'static [u8]> {
     if kind == 4 { return None; }
     let bytes: [u8; 3] = any();
     let mut i = 0;
-    while i < 3 { let c = bytes[i]; assume(c == b'N' || c == b'n' || c == b'I' || c == b'i' || c == b'a' || c == b'Z' || c == b'1' || c == b' ' || c == 0x80); i += 1; }
+    while i < 3 { let c = bytes[i]; assume(c == b'N' || c == b'n' || c == b'I' || c == b'i' || c == b'a' || c == b'Z' || c == b'1' || c == b' ' || c == b'@' || c == b'[' || c == b'`' || c == b'{' || c == 0x80 || c == 0xC1 || c == 0xE9); i += 1; }
     let s: &'static [u8; 3] = Box::leak(Box::new(bytes));
     Some(&s[..kind as usize])
 }
 
 crate::harnesses! {
+    /// is_valid_letter / is_valid_ascii for every byte value (the option validators are built on them; the unchecked UTF-8
+    /// conversion in lexical::to_string rests on "special strings are ASCII letters").
+    /// @prop C18 C17
+    /// @feat default radix_format
+    /// @fn lexical-util::ascii::{is_valid_letter, is_valid_ascii}
+    /// @timeout 600
+    fn ascii_classifiers_all_bytes() {
+        let c: u8 = any();
+        vcheck!(lexical_util::ascii::is_valid_letter(c) == is_letter(c), "is_valid_letter(c) <=> c is an ASCII letter");
+        vcheck!(lexical_util::ascii::is_valid_ascii(c) == valid_ascii(c), "is_valid_ascii(c) <=> printable ASCII or \\t..\\r");
+    }
+
+    /// write-float OptionsBuilder::is_valid == documented constraints (exponent / decimal point bytes, special strings <= 3 bytes
+    /// incl. non-ASCII bytes); every emitted special string of a valid configuration is ASCII.
+    /// @prop C18 C17
+    /// @feat default radix_format
+    /// @bound special strings of length <= 3 over {N n I i a Z 1 space @ [ ` { 0x80 0xC1 0xE9}
+    /// @fn lexical-write-float::options::OptionsBuilder::{is_valid, nan_str_is_valid, inf_str_is_valid}
+    /// @timeout 1200
+    #[cfg_attr(kani, kani::unwind(5))]
+    fn write_float_options_valid_iff_spec() {
+        let e: u8 = any();
+        let d: u8 = any();
+        let (nan, inf) = (sym_str(), sym_str());
+        let b = lexical_write_float::Options::builder().exponent(e).decimal_point(d).nan_string(nan).inf_string(inf);
+        let want = spec_write_options_valid(e, d, nan, inf);
+        vcheck!(b.is_valid() == want, "write OptionsBuilder::is_valid <=> documented constraints");
+        cover(want);
+        cover(!want);
+    }
+
     /// is_valid_options_punctuation(format, exponent, decimal_point) for every packed format and every pair of bytes.
     /// @prop C18
     /// @feat default radix_format
@@ -71,7 +110,7 @@ crate::harnesses! {
     /// 3 bytes (None, empty, wrong first letter, non-letters, inf longer than infinity).
     /// @prop C18 C15
     /// @feat default radix_format
-    /// @bound special strings of length <= 3 over {N n I i a Z 1 space 0x80}
+    /// @bound special strings of length <= 3 over {N n I i a Z 1 space @ [ ` { 0x80 0xC1 0xE9}
     /// @fn lexical-parse-float::options::OptionsBuilder::{is_valid, nan_str_is_valid, inf_str_is_valid, infinity_string_is_valid}
     /// @fn lexical-parse-float::options::Options::is_valid
     /// @timeout 1200
